@@ -186,6 +186,50 @@ def den(e, rho, mu=None, side=None):
             rr = Ite(r != 0, r, 1)
             return R.div(l, rr, lw, s) if sym == "/" else R.rem(l, rr, lw, s)
         raise Malformed("operator %s" % sym)
+    if e._is_ptr:
+        b = den(e.base, rho, mu, side)
+        return (b + e.disp) % (1 << e.size)
+    if e._is_mem:
+        # a load; e.mods is the ordered list of earlier possibly-aliasing stores attached to it:
+        # the value is what the load reads after replaying them, in order, over the initial
+        # memory mu (mu(addr) -> byte; None: nothing is known, every byte read must then be
+        # covered by a replayed store -- recorded as a side condition)
+        if w % 8:
+            raise NoClaim("memory access of %d bits" % w)
+        n = w // 8
+        addr = den(e.a, rho, mu, side)
+        AM = 1 << e.a.size
+        stores = []
+        for (loc, v) in e.mods:
+            if loc._is_mem:
+                loc = loc.a
+            if not loc._is_ptr:
+                raise NoClaim("mod location %r" % (loc,))
+            la = den(loc, rho, mu, side)
+            vv = den(v, rho, mu, side)
+            if v.size % 8:
+                raise NoClaim("stored value of %d bits" % v.size)
+            vn = v.size // 8
+            for j in range(vn):
+                k = j if e.endian == 1 else vn - 1 - j
+                stores.append(((la + j) % AM, (vv >> (8 * k)) % 256))
+        val = 0
+        for j in range(n):
+            x = (addr + j) % AM
+            if mu is not None:
+                b = mu(x)
+                cov = True
+            else:
+                b = 0
+                cov = False
+            for (a, bv) in stores:
+                c = (x == a)
+                b = Ite(c, bv, b)
+                cov = Or(cov, c)
+            side.append(cov)
+            k = j if e.endian == 1 else n - 1 - j
+            val = val + (b << (8 * k))
+        return val
     raise NoClaim("node kind %x" % e.etype)
 
 
